@@ -1082,8 +1082,11 @@ class Consumer(object):
         if self._fetch_offset == OFFSET_EARLIEST or self._fetch_offset == OFFSET_LATEST:
             # We need to fetch the offset for our topic/partition
             offset_request = OffsetRequest(self.topic, self.partition, self._fetch_offset, 1)
-            self._request_d = self.client.send_offset_request([offset_request])
-            self._request_d.addCallbacks(self._handle_offset_response, self._handle_offset_error)
+            self._request_d = d = self.client.send_offset_request([offset_request])
+            # Separately, so that a reply the handler cannot use is retried
+            # (and counted) like any other failed request
+            d.addCallback(self._handle_offset_response)
+            d.addErrback(self._handle_offset_error)
         elif self._fetch_offset == OFFSET_COMMITTED:
             # We need to fetch the committed offset for our topic/partition
             # Note we use the same callbacks, as the responses are "close
@@ -1094,8 +1097,9 @@ class Consumer(object):
                 self._start_d.errback(failure)
                 return
             request = OffsetFetchRequest(self.topic, self.partition)
-            self._request_d = self.client.send_offset_fetch_request(self.consumer_group, [request])
-            self._request_d.addCallbacks(self._handle_offset_response, self._handle_offset_error)
+            self._request_d = d = self.client.send_offset_fetch_request(self.consumer_group, [request])
+            d.addCallback(self._handle_offset_response)
+            d.addErrback(self._handle_offset_error)
         else:
             # Create fetch request payload for our partition
             request = FetchRequest(self.topic, self.partition, self._fetch_offset, self.buffer_size)
